@@ -82,8 +82,8 @@ def setup():
 
 def batches(tier):
     if tier == "quick":
-        return [("clean", 400), ("faults", 200)]
-    return [("clean", 16000), ("faults", 8000)]
+        return [("clean", 400), ("faults", 200), ("exh", len(c14.exh_sequences(2)))]
+    return [("clean", 16000), ("faults", 8000), ("exh", len(c14.exh_sequences(3)))]
 
 
 # ----------------------------------------------------------------------------
@@ -281,7 +281,36 @@ def random_pure_query(rng, meta, solver_ok=True):
 FAULT_KINDS = ["line_interrupt", "solver_error", "warnings_as_errors"]
 
 
+def generate_exh(rs, tier, index):
+    """Exhaustively up to a bounded length: every valid sequence over C14's 15-variant concrete
+    registration alphabet (from an empty estimator and after a register_system prefix), each
+    with seeded payloads, the model battery after every step."""
+    rng = PlanRng(rs)
+    pool, meta = make_pool(rng)
+    seqs = c14.exh_sequences(2 if tier == "quick" else 3)
+    prefix, seq = seqs[index % len(seqs)]
+    ops = []
+    sym = c14.Sym()
+    for i in ([0] if prefix else []) + list(seq):
+        op = dict(c14.EXH_ALPHABET[i][1])
+        k = sym.n_src
+        for key, v in list(op.items()):
+            if isinstance(v, str) and "{k0}" in v:
+                op[key] = v.replace("{k0}", str(meta["n_src"]["S0"]))
+            elif isinstance(v, str) and "{k}" in v:
+                op[key] = v.replace("{k}", str(k))
+        s2 = sym.copy()
+        assert c14.sym_apply(s2, op, meta), (op, seq)
+        sym = s2
+        ops.append(op)
+    return {"check": ID, "run_seed": rs, "mode": "exh", "pool": pool, "meta": meta,
+            "clients": [{"id": 0, "ctor": {"w": None}, "ops": ops}],
+            "schedule": [0] * len(ops), "exh": {"prefix": prefix, "seq": list(seq)}}
+
+
 def generate(rs, mode, tier, index):
+    if mode == "exh":
+        return generate_exh(rs, tier, index)
     rng = PlanRng(rs)
     pool, meta = make_pool(rng)
     n_clients = rng.choice([1, 2], p=[0.7, 0.3])
@@ -741,7 +770,14 @@ def extra_evidence(results):
         for k, v in r.get("counters", {}).items():
             if k.startswith("crash:"):
                 pts[k[6:]] = pts.get(k[6:], 0) + v
+    n_exh = sum(1 for r in results if r.get("mode") == "exh")
     return {"distinct_crash_points_hit": len(pts),
+            "exhaustive_short_histories": {
+                "alphabet": len(c14.EXH_ALPHABET), "executed": n_exh,
+                "note": "every valid sequence over the 15-variant registration alphabet (from an "
+                        "empty estimator and after a register_system prefix), length <= 2 in the "
+                        "quick tier, <= 3 in the thorough tier, seeded payloads, model battery "
+                        "after every step"},
             "spec_model": "SpecModel in checks/c02.py: explicit trapezoid weights, own domain "
                           "equalisation (C19 rule), einsum K/baseline algebra; transitions for the "
                           "8 registration calls",
